@@ -372,6 +372,9 @@ theorem inv_step (s : St) (h : Inv s) (i : In) : Inv (step s i).1 := by
   | pongRaises =>
     simp only [step]
     exact h.frame rfl rfl rfl rfl
+  | setReconnect b =>
+    simp only [step]
+    exact h.frame rfl rfl rfl rfl
   | keysFlushed =>
     simp only [step]
     split
@@ -514,6 +517,9 @@ theorem announcements (s : St) (h : Inv s) (i : In) :
   | pongRaises =>
     simp only [step]
     exact ann_silent s _ rfl (by simp [Silent])
+  | setReconnect b =>
+    simp only [step]
+    exact ann_silent s _ rfl (by simp)
   | keysFlushed =>
     simp only [step]
     split
@@ -587,6 +593,9 @@ theorem no_write_when_down (s : St) (h : Inv s) (i : In) (d : Nat) (hw : Out.wri
     simp only [step] at hw
     split at hw <;> simp at hw
   | pongRaises =>
+    simp only [step] at hw
+    simp at hw
+  | setReconnect b =>
     simp only [step] at hw
     simp at hw
   | keysFlushed =>
@@ -788,6 +797,7 @@ theorem step_unknownErrRaises (s : St) (i : In) : (step s i).1.unknownErrRaises 
     simp only [step]
     split <;> rfl
   | pongRaises => rfl
+  | setReconnect b => rfl
   | keysFlushed =>
     simp only [step]
     split
@@ -898,6 +908,9 @@ theorem step_keep (s : St) (i : In) (hk : i ≠ .keysFlushed) (hl : i ≠ .loop)
     · exact ⟨rfl, rfl, Nat.le_refl _⟩
     · exact Keep.refl s
   | pongRaises =>
+    simp only [step]
+    exact ⟨rfl, rfl, Nat.le_refl _⟩
+  | setReconnect b =>
     simp only [step]
     exact ⟨rfl, rfl, Nat.le_refl _⟩
   | keysFlushed => exact absurd rfl hk
